@@ -100,7 +100,15 @@ func vWsServerConn(msgs []vWsMsg) *wsConn {
 			return nil
 		}
 		p.srv = httptest.NewServer(http.HandlerFunc(l.handler))
-		cl, _, err := websocket.DefaultDialer.Dial("ws"+strings.TrimPrefix(p.srv.URL, "http"), nil)
+		// fragmentation: the client library cuts messages into frames of its write buffer size
+		dialer := &websocket.Dialer{}
+		for _, m := range msgs {
+			if m.frame > 0 {
+				dialer.WriteBufferSize = m.frame
+				break
+			}
+		}
+		cl, _, err := dialer.Dial("ws"+strings.TrimPrefix(p.srv.URL, "http"), nil)
 		if err != nil {
 			panic(err)
 		}
